@@ -603,6 +603,261 @@ theorem newton_postcondition (P1 S r : V3 K) (sj sag eps : K)
   · simp only [Generated.C19.newtonScale]
     exact le_max_left _ _
 
+/-! ## session 3: closed forms the Newton iteration must agree with (planes: convergence PROVED; conics: exact root) -/
+
+/-- along any ray the conic's implicit equation is the quadratic `A s² + 2 B s + C` (so a ray meets a conic in at most two points) -/
+theorem conic_ray_quadratic (c k s : K) (P S : V3 K) :
+    conicImplicit c k (V3.add P (V3.smul s S)) = conicA c k S * (s * s) + 2 * conicB c k P S * s + conicC c k P := by
+  simp only [conicImplicit, conicA, conicB, conicC, V3.add, V3.smul]
+  ring
+
+/-- the closed-form intersection `P + s S`, `s = C / (√(B² − AC) − B)`, lies on the conic `cρ² − 2z + (1+κ)c z² = 0` — every
+curvature (the plane `c = 0` included), conic constant, ray origin and direction for which the discriminant is non-negative -/
+theorem conic_closed_form_hit (sqrt : K → K) (hs : ∀ x, 0 ≤ x → sqrt x * sqrt x = x)
+    (c k : K) (P S : V3 K)
+    (hD : 0 ≤ conicB c k P S * conicB c k P S - conicA c k S * conicC c k P)
+    (hden : sqrt (conicB c k P S * conicB c k P S - conicA c k S * conicC c k P) - conicB c k P S ≠ 0) :
+    conicImplicit c k (conicHit sqrt c k P S) = 0 := by
+  rw [conicHit, conic_ray_quadratic]
+  simp only [conicHitS]
+  have hσ := hs _ hD
+  generalize sqrt (conicB c k P S * conicB c k P S - conicA c k S * conicC c k P) = σ at *
+  generalize conicA c k S = A at *
+  generalize conicB c k P S = B at *
+  generalize conicC c k P = C at *
+  field_simp
+  linear_combination C * hσ
+
+/-- a point of the implicit conic on the vertex branch (`1 − (1+κ)c z ≥ 0`) IS a point of the sag function the code evaluates
+(translated `conic_sag`): `z = cρ²/(1+φ)`.  With `conic_on_surface` (the converse): on that branch `G = 0 ⟺ z = sag(x, y)`, so the
+closed-form hit and the point Newton converges to (`F = z − sag = 0`) are the same point -/
+theorem conic_implicit_is_sag (sqrt : K → K) (hs : ∀ x, 0 ≤ x → sqrt x * sqrt x = x) (hs0 : ∀ x, 0 ≤ sqrt x)
+    (c k : K) (P : V3 K) (hG : conicImplicit c k P = 0) (hbr : 0 ≤ 1 - (1 + k) * c * P.z) :
+    P.z = Generated.C19.conicSag sqrt c k (P.x * P.x + P.y * P.y) := by
+  rw [(gen_conic sqrt c k 0 (P.x * P.x + P.y * P.y) 0).1]
+  have hu : phiSq c k (P.x * P.x + P.y * P.y) = (1 - (1 + k) * c * P.z) * (1 - (1 + k) * c * P.z) := by
+    simp only [phiSq, conicImplicit] at *
+    linear_combination (-(1 + k) * c) * hG
+  have hnn : 0 ≤ phiSq c k (P.x * P.x + P.y * P.y) := by rw [hu]; exact mul_self_nonneg _
+  have hφ : sqrt (phiSq c k (P.x * P.x + P.y * P.y)) = 1 - (1 + k) * c * P.z := by
+    have h1 := hs _ hnn
+    have h2 := hs0 (phiSq c k (P.x * P.x + P.y * P.y))
+    generalize sqrt (phiSq c k (P.x * P.x + P.y * P.y)) = φ at h1 h2 ⊢
+    rw [hu] at h1
+    have : (φ - (1 - (1 + k) * c * P.z)) * (φ + (1 - (1 + k) * c * P.z)) = 0 := by linear_combination h1
+    rcases mul_eq_zero.mp this with h | h
+    · linarith
+    · have : φ = 0 ∧ 1 - (1 + k) * c * P.z = 0 := ⟨by linarith, by linarith⟩
+      linarith [this.1, this.2]
+  rw [hφ]
+  have hd : 1 + (1 - (1 + k) * c * P.z) ≠ 0 := ne_of_gt (by linarith)
+  rw [conicSag, eq_div_iff hd]
+  simp only [conicImplicit] at hG
+  linear_combination -hG
+
+/-- PLANES — convergence proved, not trusted: for every ray that is not parallel to the plane, every `eps > 0` and every iteration
+budget ≥ 1, the Newton loop of `intersect` (model, with the code's stopping rule) stops in its FIRST pass and returns the exact
+intersection with `z = 0` and the normal `(−0, −0, 1)` -/
+theorem plane_intersect_converges (sqrt : K → K) (P0 S : V3 K) (eps : K) (fuel : Nat) (hm : S.z ≠ 0) (he : 0 < eps) :
+    ∃ P r, intersect sqrt ltK Shape.plane P0 S eps (fuel + 1) = some (P, r) ∧
+      P.z = 0 ∧ P.x = P0.x + (-P0.z / S.z) * S.x ∧ P.y = P0.y + (-P0.z / S.z) * S.y ∧ r = ⟨-0, -0, 1⟩ := by
+  have hz : (Model.C19.toVertexPlane P0 S).z = 0 := by
+    simp only [Model.C19.toVertexPlane, V3.add, V3.smul]; field_simp; ring
+  simp only [intersect, newton, newtonStep, sagNormal, sagGrad, normalOfGrad]
+  have hd : (0 : K) - ((V3.add (Model.C19.toVertexPlane P0 S) (V3.smul 0 S)).z - 0) / V3.dot S ⟨-0, -0, 1⟩ - 0 = 0 := by
+    simp only [V3.add, V3.smul, V3.dot, hz]; simp
+  simp only [hd]
+  have hsc : (1 : K) ≤ newtonScale ltK (V3.add (Model.C19.toVertexPlane P0 S) (V3.smul 0 S)) := by
+    simp only [newtonScale, ltK, decide_eq_true_eq]
+    split_ifs <;> first | exact le_refl _ | (rename_i h; exact le_of_lt ‹_›) | linarith
+  have : ltK (if ltK (0 : K) 0 = true then -(0 : K) else 0)
+      (eps * newtonScale ltK (V3.add (Model.C19.toVertexPlane P0 S) (V3.smul 0 S))) = true := by
+    simp only [ltK, lt_self_iff_false, decide_false, Bool.false_eq_true, if_false, decide_eq_true_eq]
+    exact mul_pos he (by linarith)
+  rw [if_pos this]
+  refine ⟨_, _, rfl, ?_, ?_, ?_, rfl⟩
+  · simp only [V3.add, V3.smul, hz]; simp
+  · simp only [V3.add, V3.smul, Model.C19.toVertexPlane]; ring
+  · simp only [V3.add, V3.smul, Model.C19.toVertexPlane]; ring
+
+/-- the same on the TRANSLATED Newton update: on a plane one update from ANY `s_j` lands on the exact root `s = 0` of the
+vertex-plane point, and started at `s = 0` (as `intersect` does) the step length is `0 < eps · scale` -/
+theorem plane_newton_one_step (P1 S : V3 K) (sj : K) (hz : P1.z = 0) (hm : S.z ≠ 0) :
+    Generated.C19.newtonNext abs P1 S sj 0 ⟨-0, -0, 1⟩ = 0 ∧ Generated.C19.newtonDelta abs P1 S 0 0 ⟨-0, -0, 1⟩ = 0 := by
+  constructor
+  · simp only [Generated.C19.newtonNext, V3.add, V3.smul, V3.dot, hz]
+    have : (0 + sj * S.z - 0) / (S.x * -0 + S.y * -0 + S.z * 1) = sj := by
+      rw [show S.x * -0 + S.y * -0 + S.z * 1 = S.z by ring, show (0 : K) + sj * S.z - 0 = sj * S.z by ring]
+      exact mul_div_cancel_right₀ sj hm
+    first
+      | (rw [this]; ring)
+      | (field_simp; ring)
+  · simp only [Generated.C19.newtonDelta, V3.add, V3.smul, V3.dot, hz]
+    simp
+
+/-- non-vacuity of `conic_closed_form_hit` / `conic_implicit_is_sag`: sphere `c = 1/5`, axial ray from `(3, 0, 0)`: `A = 1/5`,
+`B = −1`, `C = 9/5`, discriminant `16/25 = (4/5)²`, hit `z = 1 = sag(3)`, on the vertex branch -/
+example : let P : V3 ℚ := ⟨3, 0, 0⟩; let S : V3 ℚ := ⟨0, 0, 1⟩
+    conicB (1 / 5) 0 P S * conicB (1 / 5) 0 P S - conicA (1 / 5) 0 S * conicC (1 / 5) 0 P = 4 / 5 * (4 / 5) ∧
+    conicImplicit (1 / 5 : ℚ) 0 ⟨3, 0, 1⟩ = 0 ∧ (0 : ℚ) ≤ 1 - (1 + 0) * (1 / 5) * 1 := by
+  simp only [conicA, conicB, conicC, conicImplicit]; norm_num
+
+/-! ## session 3: whole-trace composition — unit direction cosines through any prescription -/
+
+/-- whatever the Newton loop of the model returns as the normal is a vector `(−F_x, −F_y, 1)`: its `z` component is 1, so it is never zero -/
+theorem newton_normal_z (sqrt : K → K) (lt : K → K → Bool) (sh : Shape K) (P1 S : V3 K) (eps : K) :
+    ∀ (fuel : Nat) (sj : K) (Pj r : V3 K), newton sqrt lt sh P1 S eps fuel sj = some (Pj, r) → r.z = 1 := by
+  intro fuel
+  induction fuel with
+  | zero => intro sj Pj r h; simp [newton] at h
+  | succ f ih =>
+    intro sj Pj r h
+    have hst : (newtonStep sqrt sh P1 S sj).2.1.z = 1 := by simp [newtonStep, sagNormal, normalOfGrad]
+    simp only [newton] at h
+    generalize newtonStep sqrt sh P1 S sj = st at h hst
+    obtain ⟨Pj', r', s'⟩ := st
+    simp only at h hst
+    split at h <;> split at h
+    all_goals first
+      | (have h2 := congrArg Prod.snd (Option.some.inj h); simp only at h2; rw [← h2]; exact hst)
+      | exact ih _ _ _ h
+
+/-- an orthogonal matrix preserves the squared length of a direction vector -/
+theorem mulVec_norm (R : M3 K) (hR : M3.mul (M3.transpose R) R = M3.one) (S : V3 K) :
+    V3.dot (M3.mulVec R S) (M3.mulVec R S) = V3.dot S S := by
+  rcases R with ⟨⟨a, b, c⟩, ⟨d, e, f⟩, ⟨g, h, i⟩⟩
+  rcases S with ⟨k, l, m⟩
+  simp only [M3.mul, M3.transpose, M3.one, M3.col0, M3.col1, M3.col2, V3.dot, M3.mk.injEq, V3.mk.injEq] at hR
+  obtain ⟨⟨h00, h01, h02⟩, ⟨h10, h11, h12⟩, ⟨h20, h21, h22⟩⟩ := hR
+  simp only [M3.mulVec, V3.dot]
+  linear_combination (k * k) * h00 + (k * l) * h01 + (k * m) * h02 + (l * k) * h10 + (l * l) * h11
+    + (l * m) * h12 + (m * k) * h20 + (m * l) * h21 + (m * m) * h22
+
+/-- a frame rotation that is orthogonal on both sides (`RᵀR = I` and `R Rᵀ = I`; either implies the other: `orthogonal_either_side`) -/
+def Orth (R : Option (M3 K)) : Prop :=
+  ∀ M, R = some M → M3.mul (M3.transpose M) M = M3.one ∧ M3.mul (M3.transpose (M3.transpose M)) (M3.transpose M) = M3.one
+
+/-- entering a surface frame keeps direction cosines normalised -/
+theorem toLocalS_norm (R : Option (M3 K)) (h : Orth R) (S : V3 K) : V3.dot (toLocalS R S) (toLocalS R S) = V3.dot S S := by
+  cases R with
+  | none => rfl
+  | some M => exact mulVec_norm M (h M rfl).1 S
+
+/-- leaving a surface frame (through `Rᵀ`, as `raytrace` does) keeps direction cosines normalised -/
+theorem toGlobalS_norm (R : Option (M3 K)) (h : Orth R) (S : V3 K) : V3.dot (toGlobalS R S) (toGlobalS R S) = V3.dot S S := by
+  cases R with
+  | none => rfl
+  | some M => exact mulVec_norm (M3.transpose M) (h M rfl).2 S
+
+/-- ONE SURFACE of the model tracer, any kind (mirror, refracting, evaluation), any shape, any frame: a unit direction in gives a
+unit direction out (global frame), the local incident direction is the rotated input and the normal handed on is non-zero -/
+theorem traceOne_unit (sqrt : K → K) (hs : ∀ x, 0 ≤ x → sqrt x * sqrt x = x) (eps : K) (maxiter : Nat)
+    (sf : Surface K) (P S : V3 K) (n : K) (h : Hit K)
+    (ht : traceOne sqrt ltK eps maxiter sf P S n = some h) (hS : V3.dot S S = 1) (hR : Orth sf.R)
+    (hrefr : sf.kind = Kind.refract → sf.n ≠ 0 ∧ 0 ≤ radicand n sf.n h.Sloc h.r) :
+    V3.dot h.Sg h.Sg = 1 ∧ h.Sloc = toLocalS sf.R S ∧ h.r.z = 1 := by
+  unfold traceOne at ht
+  simp only at ht
+  cases hI : intersect sqrt ltK sf.shape (toLocalP sf.P sf.R P) (toLocalS sf.R S) eps maxiter with
+  | none => rw [hI] at ht; simp at ht
+  | some pr =>
+    obtain ⟨Pj, r⟩ := pr
+    rw [hI] at ht
+    have hz : r.z = 1 := newton_normal_z sqrt ltK sf.shape _ _ eps maxiter 0 Pj r hI
+    have hr : r ≠ ⟨0, 0, 0⟩ := by
+      intro e; rw [e] at hz; simp at hz
+    have hS0 : V3.dot (toLocalS sf.R S) (toLocalS sf.R S) = 1 := by rw [toLocalS_norm _ hR, hS]
+    simp only [Option.some.injEq] at ht
+    subst ht
+    refine ⟨?_, rfl, hz⟩
+    simp only
+    rw [toGlobalS_norm _ hR]
+    cases hk : sf.kind with
+    | reflect =>
+      simp only
+      have hp := normSq_pos hr
+      rcases hloc : toLocalS sf.R S with ⟨k, l, m⟩
+      rw [hloc] at hS0
+      rcases r with ⟨a, b, c⟩
+      simp only [Model.C19.reflect, V3.dot, V3.sub, V3.smul] at *
+      have h3 : a * a + b * b + c * c ≠ 0 := ne_of_gt hp
+      field_simp
+      linear_combination (a * a + b * b + c * c) ^ 2 * hS0
+    | eval => simpa only using hS0
+    | refract =>
+      simp only [hk] at hrefr ⊢
+      obtain ⟨hn', hrad⟩ := hrefr trivial
+      have hσ := hs _ hrad
+      by_cases hc : V3.dot r (toLocalS sf.R S) < 0
+      · have hσ' : (-sqrt (radicand n sf.n (toLocalS sf.R S) r)) * (-sqrt (radicand n sf.n (toLocalS sf.R S) r))
+            = radicand n sf.n (toLocalS sf.R S) r := by rw [neg_mul_neg]; exact hσ
+        have := (refract_core n sf.n _ (toLocalS sf.R S) r hr hS0 hn' hσ').1
+        simpa only [Model.C19.refract, ltK, decide_eq_true_eq, hc, if_true, radicand] using this
+      · have := (refract_core n sf.n _ (toLocalS sf.R S) r hr hS0 hn' hσ).1
+        simpa only [Model.C19.refract, ltK, decide_eq_true_eq, hc, if_false, radicand] using this
+/-- below the critical angle at every refracting surface of the prescription, with the index in front of each surface threaded as
+the tracer threads it -/
+def NoTIR : List (Surface K) → List (Hit K) → K → Prop
+  | [], [], _ => True
+  | sf :: ss, h :: hs, n => (sf.kind = Kind.refract → sf.n ≠ 0 ∧ 0 ≤ radicand n sf.n h.Sloc h.r) ∧ NoTIR ss hs h.n
+  | _, _, _ => False
+
+/-- WHOLE-TRACE COMPOSITION: for every prescription (any number of surfaces, any mix of mirrors / refracting / evaluation surfaces,
+planes / conics / off-axis conics, tilted and decentred orthogonal frames) the model tracer returns one hit per surface and EVERY
+outgoing direction has unit length, provided the ray starts with unit direction cosines and stays below the critical angle at each
+refracting surface (indices threaded as the tracer threads them) — by induction over the surface list -/
+theorem trace_unit_directions (sqrt : K → K) (hsq : ∀ x, 0 ≤ x → sqrt x * sqrt x = x) (eps : K) (maxiter : Nat) :
+    ∀ (surfs : List (Surface K)) (P S : V3 K) (n : K) (hits : List (Hit K)),
+      trace sqrt ltK eps maxiter surfs P S n = some hits → V3.dot S S = 1 → (∀ sf ∈ surfs, Orth sf.R) →
+      NoTIR surfs hits n → hits.length = surfs.length ∧ ∀ h ∈ hits, V3.dot h.Sg h.Sg = 1 := by
+  intro surfs
+  induction surfs with
+  | nil =>
+    intro P S n hits ht _ _ _
+    simp only [trace, Option.some.injEq] at ht
+    subst ht
+    simp
+  | cons sf ss ih =>
+    intro P S n hits ht hS hO hN
+    simp only [trace] at ht
+    cases h1 : traceOne sqrt ltK eps maxiter sf P S n with
+    | none => rw [h1] at ht; simp at ht
+    | some h =>
+      rw [h1] at ht
+      simp only at ht
+      cases h2 : trace sqrt ltK eps maxiter ss h.Pg h.Sg h.n with
+      | none => rw [h2] at ht; simp at ht
+      | some hs' =>
+        rw [h2] at ht
+        simp only [Option.some.injEq] at ht
+        subst ht
+        simp only [NoTIR] at hN
+        have u := traceOne_unit sqrt hsq eps maxiter sf P S n h h1 hS (hO sf (List.mem_cons_self ..)) hN.1
+        have r := ih h.Pg h.Sg h.n hs' h2 u.1 (fun sf' hm => hO sf' (List.mem_cons_of_mem _ hm)) hN.2
+        refine ⟨by simp [r.1], ?_⟩
+        intro h' hm
+        rcases List.mem_cons.mp hm with e | e
+        · rw [e]; exact u.1
+        · exact r.2 h' e
+/-- non-vacuity of `trace_unit_directions`: an axial ray onto a plane mirror is traced (convergence by `plane_intersect_converges`), all hypotheses hold -/
+example : ∃ hits, trace Real.sqrt ltK (1 / 10 : ℝ) 5 [⟨Kind.reflect, ⟨0, 0, 0⟩, none, Shape.plane, 1⟩] ⟨0, 0, -1⟩ ⟨0, 0, 1⟩ 1 = some hits ∧
+    V3.dot (⟨0, 0, 1⟩ : V3 ℝ) ⟨0, 0, 1⟩ = 1 ∧ Orth (none : Option (M3 ℝ)) ∧
+    NoTIR [⟨Kind.reflect, ⟨0, 0, 0⟩, none, Shape.plane, 1⟩] hits 1 := by
+  obtain ⟨Pj, r, hI, _⟩ := plane_intersect_converges Real.sqrt (toLocalP (⟨0, 0, 0⟩ : V3 ℝ) none ⟨0, 0, -1⟩) (toLocalS none ⟨0, 0, 1⟩)
+    (1 / 10) 4 (by simp [toLocalS]) (by norm_num)
+  have hI' : intersect Real.sqrt ltK Shape.plane (toLocalP (⟨0, 0, 0⟩ : V3 ℝ) none ⟨0, 0, -1⟩) (toLocalS none ⟨0, 0, 1⟩) (1 / 10) 5
+      = some (Pj, r) := hI
+  cases ht : trace Real.sqrt ltK (1 / 10 : ℝ) 5 [⟨Kind.reflect, ⟨0, 0, 0⟩, none, Shape.plane, 1⟩] ⟨0, 0, -1⟩ ⟨0, 0, 1⟩ 1 with
+  | none => simp only [trace, traceOne, hI', reduceCtorEq] at ht
+  | some hits =>
+    have hO : Orth (none : Option (M3 ℝ)) := by
+      intro M h
+      cases h
+    refine ⟨hits, rfl, by simp [V3.dot], hO, ?_⟩
+    simp only [trace, traceOne, hI', Option.some.injEq] at ht
+    subst ht
+    simp [NoTIR]
+
 /-! ## non-vacuity: the hypotheses are met by the real square root and by concrete rays -/
 
 example : (∀ x : ℝ, 0 ≤ x → Real.sqrt x * Real.sqrt x = x) ∧ (∀ x : ℝ, 0 ≤ Real.sqrt x) :=
